@@ -18,7 +18,8 @@
 (*   [op |-> "switch", c] [op |-> "case"] [op |-> "default"] (closed by "close") *)
 (*   [op |-> "std"] (include "stdgates.inc") [op |-> "pragma"] [op |-> "annot"]*)
 (*   [op |-> "if", c, block] [op |-> "else", block] [op |-> "while", c, block]*)
-(*   [op |-> "for", v, block] [op |-> "gate", n, ps, qs] [op |-> "def", n, ps]*)
+(*   [op |-> "for", v, it, x, block] (x: the name in the iterable) [op |-> "gphase", mod] *)
+(*   [op |-> "gate", n, ps, qs] [op |-> "def", n, ps]                         *)
 (*   [op |-> "close"]                                                        *)
 (*   [op |-> "ix", role, n, ix, x]     indexed identifier n<ix> as expression *)
 (*                                     statement / reset or measure operand / *)
@@ -317,6 +318,9 @@ IxStmt(role, n, ix, x) ==
        [] role = "measure" -> Finish(ins, stack, syms, e.diags \o opcheck, <<"ExprStmt", <<"Measure", e.skel>> >>, TRUE)
        [] role = "lhs"     -> Finish(ins, stack, syms, e.diags \o toomany \o mutate, <<"Assignment", e.skel, IxLit("1")>>, TRUE)
 
+(* gphase(angle), possibly modified: the graph keeps the modifier sequence (ModifiedGPhaseCall) *)
+GPhase(md) == Finish([op |-> "gphase", mod |-> md], stack, syms, <<>>, <<"GPhase", md>>, TRUE)
+
 Return(e) ==
   LET ev == EvalExpr(stack, syms, e)
       ds == ev.diags \o (IF Top(stack).kind = "Global" THEN <<"ReturnInGlobalScopeError">> ELSE <<>>)
@@ -364,13 +368,24 @@ OpenWhile(cn, block) ==
   PushOpen([kind |-> "while", block |-> block, cond |-> ev.skel], Enter(stack, "Local"), syms, ev.diags,
            [op |-> "while", c |-> cn, block |-> block])
 (* ForStmt: the loop variable is bound in the body's scope *)
-Iterables == {"r2", "r3", "set"}
+Iterables == {"r2", "r3", "set", "rn", "sn", "id"}
+NameIters == {"rn", "sn", "id"}          \* iterables that mention a name x: [0:x], {1, x, 3}, x (the last with a braced body only:
+                                         \* "for int i in x (1);" would read x(1) as the iterable)
 IterSkel(it) == CASE it = "r2" -> <<"Range", <<"Lit", "Int", "0">>, <<"None">>, <<"Lit", "Int", "2">> >>
                   [] it = "r3" -> <<"Range", <<"Lit", "Int", "0">>, <<"Lit", "Int", "2">>, <<"Lit", "Int", "8">> >>
                   [] it = "set" -> <<"Set", << <<"Lit", "Int", "1">>, <<"Lit", "Int", "5">>, <<"Lit", "Int", "3">> >> >>
-OpenFor(v, it, block) ==
-  LET b == Bind(Enter(stack, "Local"), syms, v, TInt) IN
-  PushOpen([kind |-> "for", block |-> block, var |-> b.id, it |-> IterSkel(it)], b.st, b.sy, <<>>, [op |-> "for", v |-> v, it |-> it, block |-> block])
+(* the iterable is translated in the ENCLOSING scope, before the loop scope is entered and the variable bound: a name in it *)
+(* that equals the loop variable is the outer declaration (or undeclared), never the loop variable                         *)
+IterEval(it, x) ==
+  LET e == EvalExpr(stack, syms, [k |-> "use", n |-> x]) IN
+  CASE it = "rn" -> [skel |-> <<"Range", <<"Lit", "Int", "0">>, <<"None">>, e.skel>>, diags |-> e.diags]
+    [] it = "sn" -> [skel |-> <<"Set", << <<"Lit", "Int", "1">>, e.skel, <<"Lit", "Int", "3">> >> >>, diags |-> e.diags]
+    [] it = "id" -> [skel |-> <<"Iter", e.skel>>, diags |-> e.diags]
+    [] OTHER -> [skel |-> IterSkel(it), diags |-> <<>>]
+OpenFor(v, it, x, block) ==
+  LET iv == IterEval(it, x)
+      b == Bind(Enter(stack, "Local"), syms, v, TInt) IN
+  PushOpen([kind |-> "for", block |-> block, var |-> b.id, it |-> iv.skel], b.st, b.sy, iv.diags, [op |-> "for", v |-> v, it |-> it, x |-> x, block |-> block])
 
 (* SwitchCaseStmt: the control expression in the current scope; every case block and the default block has its own   *)
 (* Local scope; the braces of the switch itself open no scope.  Case values are integer literals.                   *)
@@ -384,6 +399,37 @@ OpenCase ==
 OpenDefault ==
   /\ InSwitchHeader /\ ~TopOpen.hasDefault
   /\ PushOpen([kind |-> "default", block |-> TRUE], Enter(stack, "Local"), syms, <<>>, [op |-> "default", block |-> TRUE])
+
+(***************************************************************************)
+(* Dangling else.  The instruction list is linear: "else" is meant for the   *)
+(* if statement completed last at the current level.  When that if has an    *)
+(* un-braced body which itself ends in an else-less if                        *)
+(* (if (a) if (b) x; else y;) the text would bind the else to the NEAREST     *)
+(* if, so such a list does not denote the program the model means and is      *)
+(* never generated.  ElseFlags reads prog: per open level, for the statement  *)
+(* completed last, d = "ends in an else-less if reachable without crossing a  *)
+(* brace", e = "is an else-less if that an else can follow unambiguously".    *)
+(***************************************************************************)
+EFNone == [d |-> FALSE, e |-> FALSE]
+Front(q) == SubSeq(q, 1, Len(q) - 1)
+EFCloseTop(s) ==
+  LET c == s.o[Len(s.o)]
+      bd == s.f[Len(s.f)].d
+      nf == CASE c.kind = "if" -> [d |-> TRUE, e |-> (c.braced \/ ~bd)]
+              [] c.kind \in {"else", "while", "for"} -> [d |-> (IF c.braced THEN FALSE ELSE bd), e |-> FALSE]
+              [] OTHER -> EFNone
+  IN [o |-> Front(s.o), f |-> Append(Front(Front(s.f)), nf)]
+RECURSIVE EFCloseSingles(_)
+EFCloseSingles(s) == IF s.o # <<>> /\ ~s.o[Len(s.o)].braced THEN EFCloseSingles(EFCloseTop(s)) ELSE s
+EFStep(s, ins) ==
+  CASE ins.op \in {"if", "else", "while", "for", "switch", "case", "default", "gate", "def"} ->
+         [o |-> Append(s.o, [kind |-> ins.op, braced |-> (IF ins.op \in {"gate", "def"} THEN TRUE ELSE ins.block)]), f |-> Append(s.f, EFNone)]
+    [] ins.op = "close" -> EFCloseSingles(EFCloseTop(s))
+    [] ins.op = "annot" -> s
+    [] OTHER -> EFCloseSingles([s EXCEPT !.f = Append(Front(@), EFNone)])
+RECURSIVE EFScan(_)
+EFScan(p) == IF p = <<>> THEN [o |-> <<>>, f |-> <<EFNone>>] ELSE EFStep(EFScan(Front(p)), p[Len(p)])
+ElseUnambiguous == LET s == EFScan(prog) IN s.f[Len(s.f)].e
 
 (* else: only directly after the true body of an if has closed; the If node is re-opened *)
 LastIsIf == LET cur == out[Len(out)] IN cur # <<>> /\ Len(cur[Len(cur)]) >= 1 /\
@@ -421,6 +467,8 @@ OpenDef(n, ps) ==
 
 Close ==
   /\ open # <<>> /\ TopOpen.block
+  (* the grammar wants at least one case or default block between the braces of a switch *)
+  /\ (TopOpen.kind = "switch" => out[Len(out)] # <<>>)
   /\ LET s1 == CloseAll(CloseOne(Pack)) IN Unpack(s1)
   /\ prog' = Append(prog, [op |-> "close"])
   /\ UNCHANGED <<std, panicked>>
@@ -448,9 +496,10 @@ SPragma  == CanEmit /\ Pragma
 SAnnot   == CanEmit /\ Annot
 SStd     == CanEmit /\ ~std /\ IncludeStd
 SIf      == CanEmit /\ CanOpen /\ \E cn \in Names, bl \in BOOLEAN : OpenIf(cn, bl)
-SElse    == CanEmit /\ CanOpen /\ ~InSingle /\ LastIsIf /\ \E bl \in BOOLEAN : OpenElse(bl)
+SElse    == CanEmit /\ CanOpen /\ ~InSingle /\ LastIsIf /\ ElseUnambiguous /\ \E bl \in BOOLEAN : OpenElse(bl)
 SWhile   == CanEmit /\ CanOpen /\ \E cn \in Names, bl \in BOOLEAN : OpenWhile(cn, bl)
-SFor     == CanEmit /\ CanOpen /\ \E v \in Names, it \in Iterables, bl \in BOOLEAN : OpenFor(v, it, bl)
+SFor     == CanEmit /\ CanOpen /\ \E v \in Names, it \in Iterables, x \in Names, bl \in BOOLEAN : (it \notin NameIters => x = v) /\ (it = "id" => bl) /\ OpenFor(v, it, x, bl)
+SGPhase  == CanEmit /\ \E md \in GateMods : GPhase(md)
 SBin     == CanEmit /\ \E o \in BinOpsM, l \in Names, r \in Names : BinStmt(o, l, r)
 SIx      == CanEmit /\ \E role \in IxRoles, n \in Names, ix \in IxForms, x \in Names : (ix # "n" => x = n) /\ IxStmt(role, n, ix, x)
 SLit     == CanEmit /\ \E f \in LitForms : LitStmt(f)
@@ -473,7 +522,7 @@ SDef     == CanEmit /\ CanOpen /\ \E n \in Names, ps \in {<<>>} \cup {<<p>> : p 
 SClose   == ~panicked /\ Close
 
 Next == SDecl \/ SQDecl \/ SAssign \/ SGateCall \/ SUse \/ SReset \/ SBarrier \/ SDelay \/ SReturn \/ SBreak \/ SPragma \/ SAnnot
-        \/ SStd \/ SIf \/ SElse \/ SWhile \/ SFor \/ SGate \/ SDef \/ SClose \/ SBin \/ SLit \/ SIx \/ SRepeat \/ SSwitch \/ SCase \/ SDefault
+        \/ SStd \/ SIf \/ SElse \/ SWhile \/ SFor \/ SGate \/ SDef \/ SClose \/ SBin \/ SLit \/ SIx \/ SGPhase \/ SRepeat \/ SSwitch \/ SCase \/ SDefault
 Spec == Init /\ [][Next]_vars
 
 (***************************** invariants of M ******************************)
